@@ -18,6 +18,9 @@ fn universe() -> Vec<String> {
     for c in [0x212Au32, 0x17F, 0xE9, 0xC9, 0x3BC, 0xB5, 0xDF, 0x1E9E, 0x3C3, 0x3C2, 0x3A3, 0x131, 0x130, 0x10400, 0x10428, 0x2028, 0x41, 0x61, 0x7B, 0x60] {
         v.push(char::from_u32(c).unwrap().to_string());
     }
+    // NUL and DEL: padding / sentinel values of fixed-size set representations
+    v.push("\u{0}".to_string());
+    v.push("\u{7f}".to_string());
     for s in ["", "ab", "aB", "AB", "ba", "abc", "kk", "a\u{17F}"] {
         v.push(s.to_string());
     }
